@@ -156,6 +156,108 @@ theorem bragg_rcos {R S : ℝ → ℂ} (κ0 : ℝ)
   simp only [e1, e2]
   ring
 
+/-! ### the uniform grating: the whole spectrum -/
+
+/-- for the uniform profile (`apo_func is None`) and no chirp, the model's σ̂(z) and κ(z) are the constants
+    d = δ + s (detuning) and k — at every z -/
+theorem model_uniform_coefficients_constant (c : Coef ℝ) (z : ℝ) :
+    sigmaHat none 0 z c = c.delta + c.s ∧ kappa none c = c.k := by
+  simp [sigmaHat, kappa]
+
+/-- the closed-form solutions for constant σ ≡ d, κ ≡ k with the code's boundary values (derived for the code's sign
+    convention): stop band R = cosh(g(b−z)) − j(d/g)sinh(g(b−z)), S = j(k/g)sinh(g(b−z)); pass band the same with cos/sin and
+    q; band edge R = 1 − jd(b−z), S = jk(b−z) -/
+theorem uniform_closed_forms_are_solutions {a b : ℝ} :
+    (∀ g c1 c2 : ℝ, c2 * c2 - c1 * c1 = 1 → Solves (fun _ => c1 * g) (fun _ => c2 * g) a b
+      (fun z => ((Real.cosh (g * (b - z)) : ℝ) : ℂ) - I * ((c1 * Real.sinh (g * (b - z)) : ℝ) : ℂ))
+      (fun z => I * ((c2 * Real.sinh (g * (b - z)) : ℝ) : ℂ))) ∧
+    (∀ q c1 c2 : ℝ, c1 * c1 - c2 * c2 = 1 → Solves (fun _ => c1 * q) (fun _ => c2 * q) a b
+      (fun z => ((Real.cos (q * (b - z)) : ℝ) : ℂ) - I * ((c1 * Real.sin (q * (b - z)) : ℝ) : ℂ))
+      (fun z => I * ((c2 * Real.sin (q * (b - z)) : ℝ) : ℂ))) ∧
+    (∀ d k : ℝ, d * d = k * k → Solves (fun _ => d) (fun _ => k) a b
+      (fun z => (1 : ℂ) - I * ((d * (b - z) : ℝ) : ℂ)) (fun z => I * ((k * (b - z) : ℝ) : ℂ))) :=
+  ⟨fun g c1 c2 h => uniform_hyp_solution g c1 c2 h, fun q c1 c2 h => uniform_trig_solution q c1 c2 h,
+   fun d k h => uniform_edge_solution d k h⟩
+
+/-- inside the stop band |d| < k, g = √(k² − d²): EVERY solution on [−½, ½] with R(½)=1, S(½)=0 has
+    |ρ(−½)|² = sinh²(g)/(cosh²(g) − d²/k²) -/
+theorem uniform_stopband_reflectivity {R S : ℝ → ℂ} (d k : ℝ) (hdk : |d| < k)
+    (h : Solves (fun _ => d) (fun _ => k) (-(1 / 2)) (1 / 2) R S) (hR : R (1 / 2) = 1) (hS : S (1 / 2) = 0) :
+    ‖S (-(1 / 2)) / R (-(1 / 2))‖ ^ 2 =
+      Real.sinh (Real.sqrt (k ^ 2 - d ^ 2)) ^ 2 / (Real.cosh (Real.sqrt (k ^ 2 - d ^ 2)) ^ 2 - d ^ 2 / k ^ 2) := by
+  have := uniform_stopband d k hdk (by norm_num) h hR hS
+  rw [this]
+  norm_num
+
+/-- … which at d = 0 is tanh²(k), the Bragg-frequency value of `bragg_uniform` -/
+theorem uniform_stopband_at_bragg (k : ℝ) (hk : 0 < k) :
+    Real.sinh (Real.sqrt (k ^ 2 - (0 : ℝ) ^ 2)) ^ 2 / (Real.cosh (Real.sqrt (k ^ 2 - (0 : ℝ) ^ 2)) ^ 2 - (0 : ℝ) ^ 2 / k ^ 2)
+      = Real.tanh k ^ 2 := by
+  have : Real.sqrt (k ^ 2 - (0 : ℝ) ^ 2) = k := by
+    rw [show k ^ 2 - (0 : ℝ) ^ 2 = k ^ 2 by ring, Real.sqrt_sq hk.le]
+  rw [this, Real.tanh_eq_sinh_div_cosh, div_pow]
+  simp
+
+/-- outside the stop band |d| > k > 0, q = √(d² − k²): |ρ(−½)|² = sin²(q)/(d²/k² − cos²(q)) = k² sin²q/(q² + k² sin²q) -/
+theorem uniform_passband_reflectivity {R S : ℝ → ℂ} (d k : ℝ) (hk : 0 < k) (hdk : k < |d|)
+    (h : Solves (fun _ => d) (fun _ => k) (-(1 / 2)) (1 / 2) R S) (hR : R (1 / 2) = 1) (hS : S (1 / 2) = 0) :
+    ‖S (-(1 / 2)) / R (-(1 / 2))‖ ^ 2 =
+      Real.sin (Real.sqrt (d ^ 2 - k ^ 2)) ^ 2 / (d ^ 2 / k ^ 2 - Real.cos (Real.sqrt (d ^ 2 - k ^ 2)) ^ 2) ∧
+    ‖S (-(1 / 2)) / R (-(1 / 2))‖ ^ 2 =
+      k ^ 2 * Real.sin (Real.sqrt (d ^ 2 - k ^ 2)) ^ 2 / (d ^ 2 - k ^ 2 + k ^ 2 * Real.sin (Real.sqrt (d ^ 2 - k ^ 2)) ^ 2) := by
+  have h1 := uniform_passband d k hk hdk (by norm_num) h hR hS
+  have e : (1 / 2 : ℝ) - -(1 / 2) = 1 := by norm_num
+  rw [e, mul_one] at h1
+  refine ⟨h1, ?_⟩
+  rw [h1]
+  have hpos : 0 < d ^ 2 - k ^ 2 := by
+    have : k ^ 2 < |d| ^ 2 := by nlinarith
+    rw [sq_abs] at this; linarith
+  have hcs := Real.sin_sq_add_cos_sq (Real.sqrt (d ^ 2 - k ^ 2))
+  have hk2 : k ^ 2 ≠ 0 := by positivity
+  have hden : d ^ 2 / k ^ 2 - Real.cos (Real.sqrt (d ^ 2 - k ^ 2)) ^ 2 ≠ 0 := by
+    have : 1 < d ^ 2 / k ^ 2 := by rw [one_lt_div (by positivity)]; linarith
+    have : Real.cos (Real.sqrt (d ^ 2 - k ^ 2)) ^ 2 ≤ 1 := by nlinarith [sq_nonneg (Real.sin (Real.sqrt (d ^ 2 - k ^ 2)))]
+    intro h0; linarith
+  have hden2 : d ^ 2 - k ^ 2 + k ^ 2 * Real.sin (Real.sqrt (d ^ 2 - k ^ 2)) ^ 2 ≠ 0 := by
+    have : 0 ≤ k ^ 2 * Real.sin (Real.sqrt (d ^ 2 - k ^ 2)) ^ 2 := by positivity
+    intro h0; linarith
+  rw [div_eq_div_iff hden hden2]
+  field_simp
+  linear_combination (Real.sin (Real.sqrt (d ^ 2 - k ^ 2)) ^ 2 * k ^ 2) * hcs
+
+/-- at the band edge d² = k²: |ρ(−½)|² = k²/(1 + k²) (the common limit of the two formulas) -/
+theorem uniform_bandedge_reflectivity {R S : ℝ → ℂ} (d k : ℝ) (hdk : d * d = k * k)
+    (h : Solves (fun _ => d) (fun _ => k) (-(1 / 2)) (1 / 2) R S) (hR : R (1 / 2) = 1) (hS : S (1 / 2) = 0) :
+    ‖S (-(1 / 2)) / R (-(1 / 2))‖ ^ 2 = k ^ 2 / (1 + k ^ 2) := by
+  have := uniform_edge d k hdk (by norm_num) h hR hS
+  rw [this]
+  norm_num
+
+/-- the clause of the statement, for the model: for the uniform profile and F = 0, ANY functions R, S whose derivatives are
+    the model's right-hand side with R(½)=1, S(½)=0 have, at every frequency bin inside the stop band (|δ+s| < k),
+    |S(−½)/R(−½)|² = sinh²(g)/(cosh²(g) − d²/k²) with d = δ + s, g = √(k² − d²) -/
+theorem fbg_uniform_spectrum (c : Coef ℝ) (Rf Sf : ℝ → ℂ) (hin : |c.delta + c.s| < c.k)
+    (hR' : ∀ z ∈ Set.Icc (-(1 / 2) : ℝ) (1 / 2),
+      HasDerivWithinAt Rf ((rhs none 0 z c (ofC (Rf z)) (ofC (Sf z))).1.toC) (Set.Icc (-(1 / 2)) (1 / 2)) z)
+    (hS' : ∀ z ∈ Set.Icc (-(1 / 2) : ℝ) (1 / 2),
+      HasDerivWithinAt Sf ((rhs none 0 z c (ofC (Rf z)) (ofC (Sf z))).2.toC) (Set.Icc (-(1 / 2)) (1 / 2)) z)
+    (hR : Rf (1 / 2) = 1) (hS : Sf (1 / 2) = 0) :
+    ‖Sf (-(1 / 2)) / Rf (-(1 / 2))‖ ^ 2 =
+      Real.sinh (Real.sqrt (c.k ^ 2 - (c.delta + c.s) ^ 2)) ^ 2
+        / (Real.cosh (Real.sqrt (c.k ^ 2 - (c.delta + c.s) ^ 2)) ^ 2 - (c.delta + c.s) ^ 2 / c.k ^ 2) := by
+  have h : Solves (fun _ => c.delta + c.s) (fun _ => c.k) (-(1 / 2)) (1 / 2) Rf Sf := by
+    constructor
+    · intro z hz
+      have := hR' z hz
+      rwa [(toC_rhs _ _ _ _ _ _).1, toC_ofC, toC_ofC, (model_uniform_coefficients_constant c z).1,
+        (model_uniform_coefficients_constant c z).2] at this
+    · intro z hz
+      have := hS' z hz
+      rwa [(toC_rhs _ _ _ _ _ _).2, toC_ofC, toC_ofC, (model_uniform_coefficients_constant c z).1,
+        (model_uniform_coefficients_constant c z).2] at this
+  exact uniform_stopband_reflectivity _ _ hin h hR hS
+
 /-- full statement of the clause that is NOT a theorem here: the number `FBG` returns (RK45, rtol 1e-3) equals the exact
     solution's ρ to the accuracy of the solver.  Checked by the oracle on the real code (harness PARTIAL). -/
 def C16_full_solver_accuracy (Hcomputed : ℂ) (a : ℝ) (R S : ℝ → ℂ) (tol : ℝ) : Prop :=
